@@ -336,7 +336,7 @@ impl Sim {
             last_conf: HashMap::new(),
         };
         if sim.p_active {
-            sim.ptrace.push("p new -> ok".into());
+            sim.ptrace.push(format!("p new {} -> ok", sim.params.seed));
         }
         sim
     }
@@ -1357,6 +1357,8 @@ pub struct RunResult {
     pub stats: BTreeMap<String, u64>,
     pub p_lines: usize,
     pub p_end: String,
+    pub ev_hashes: Vec<u64>,
+    pub ev_kinds: BTreeMap<String, u64>,
 }
 
 pub fn run_one(params: Params, out: &mut dyn std::io::Write) -> RunResult {
@@ -1365,5 +1367,22 @@ pub fn run_one(params: Params, out: &mut dyn std::io::Write) -> RunResult {
     for l in &sim.ptrace {
         writeln!(out, "{}", l).unwrap();
     }
-    RunResult { seed: params.seed, violations: std::mem::take(&mut sim.violations), history: std::mem::take(&mut sim.history), stats: sim.stats.clone(), p_lines: sim.ptrace.len(), p_end: sim.p_end_reason.clone() }
+    let mut ev_hashes = vec![];
+    let mut ev_kinds: BTreeMap<String, u64> = BTreeMap::new();
+    for l in &sim.ptrace {
+        if let Some(rest) = l.strip_prefix("p ev ") {
+            // distinct = same event with the same arguments except node-independent noise: hash the text
+            let mut h: u64 = 0xcbf2_9ce4_8422_2325;
+            for b in rest.bytes() {
+                h ^= b as u64;
+                h = h.wrapping_mul(0x1000_0000_01b3);
+            }
+            ev_hashes.push(h);
+            let kind = rest.split(' ').next().unwrap_or("").to_string();
+            *ev_kinds.entry(kind).or_insert(0) += 1;
+        } else if l.starts_with("p view") {
+            *ev_kinds.entry("view".into()).or_insert(0) += 1;
+        }
+    }
+    RunResult { ev_hashes, ev_kinds, seed: params.seed, violations: std::mem::take(&mut sim.violations), history: std::mem::take(&mut sim.history), stats: sim.stats.clone(), p_lines: sim.ptrace.len(), p_end: sim.p_end_reason.clone() }
 }
